@@ -214,6 +214,13 @@ class ExprMixin(object):
 
     def eq(self, st, a, b):
         """z3 Bool / python bool for a == b (Python semantics for the supported cases)"""
+        for x, y in ((a, b), (b, a)):
+            if x.is_py and type(x.py).__name__ == 'ClassOf':
+                if y.is_py and isinstance(y.py, type):
+                    if y.py.__name__ in self.world.classes and self.world.classes[y.py.__name__] is y.py:
+                        return self.H(st, 'cls')[x.py.obj.term] == self.world.cid(y.py.__name__)
+                    return False
+                raise OutOfReach('comparison of type(obj) with %r' % (y,))
         if a.is_py and b.is_py:
             if isinstance(a.py, tuple) and isinstance(b.py, tuple):
                 if len(a.py) != len(b.py):
@@ -474,12 +481,13 @@ class ExprMixin(object):
                     continue
                 if not all(k.is_py and isinstance(k.py, str) for k in ks):
                     raise OutOfReach('dict display with symbolic keys')
-                yield self.new_dict(st2, [k.py for k in ks], vs)
+                yield self.new_dict(st2, [k.py for k in ks], vs, getattr(self, '_dict_valty', None))
 
-    def new_dict(self, st, keys, vs):
+    def new_dict(self, st, keys, vs, valty=None):
         """dict display with constant string keys -> heap dict; a ghost shadow remembers the key set and the
         static types (needed for ** expansion and .update)"""
-        valty = self.elem_type_of(vs) if vs else ANY
+        if valty is None:
+            valty = self.elem_type_of(vs) if vs else ANY
         code = code_of(valty)
         st, a = self.alloc(st, 'dict')
         dom = z3.K(StrS, z3.BoolVal(False))
@@ -604,6 +612,11 @@ class ExprMixin(object):
                 ca, cb = code_of(a.ty), (code_of(b.ty) if not b.is_py else None)
                 if ca == 'R' and (cb == 'R' or (b.is_py and isinstance(b.py, type))):
                     c = self.term(a) == self.term(b, 'R')
+                elif ca == 'V' and cb == 'R':
+                    # a dynamically typed value against a reference: identical iff it holds that reference
+                    c = z3.And(Val.is_VRef(a.term), Val.addr(a.term) == self.term(b, 'R'))
+                elif ca == 'R' and cb == 'V':
+                    c = z3.And(Val.is_VRef(b.term), Val.addr(b.term) == self.term(a, 'R'))
                 else:
                     raise OutOfReach('is on non-references')
             yield st, (c if isinstance(op, ast.Is) else self.not_(c))
@@ -1211,6 +1224,14 @@ class ExprMixin(object):
             for st1, b in self.branch(st, present):
                 if b:
                     yield self.from_heap(st1, val, valty)
+                elif st1.ghost.get('ddefault:%s' % base.term) is not None:
+                    # collections.defaultdict: a missing key is inserted with the factory's value
+                    dflt = st1.ghost['ddefault:%s' % base.term]
+                    st2, t = self.store_term(st1, dflt, code)
+                    st2 = self.HS(st2, 'Dd', z3.Store(self.H(st2, 'Dd'), base.term, z3.Store(self.H(st2, 'Dd')[base.term], kt, z3.BoolVal(True))))
+                    st2 = self.HS(st2, 'Dv.' + code, z3.Store(self.H(st2, 'Dv.' + code), base.term,
+                                                               z3.Store(self.H(st2, 'Dv.' + code)[base.term], kt, t)))
+                    yield st2, dflt
                 else:
                     yield self.raise_(st1, KeyError, idx)
             return
@@ -1340,6 +1361,31 @@ class ExprMixin(object):
                         st1, u = self.unbox(st1, base.term, inner)
                     for r in self.slice(st1, u, lo, hi, fr):
                         yield r
+            return
+        if k == 'obj' and base.ty.args[0] in getattr(self.world, 'tuple_records', {}):
+            # record[lo:] with a constant lo: one branch per modelled arity
+            fields = self.world.tuple_records[base.ty.args[0]]
+            lov = 0 if lo is None else (lo.py if lo.is_py else NOPY)
+            if hi is not None and not (hi.is_py and hi.py is None) or not isinstance(lov, int) or lov < 0:
+                raise OutOfReach('slice form on a %s record' % base.ty.args[0])
+            alen = self.record_len(st, base)
+            if alen is None:
+                lens = [len(fields)]
+            else:
+                lens = list(range(0, len(fields) + 1))
+            for L in lens:
+                stL = st if alen is None else st.assume(alen == L)
+                if alen is not None and not self.feasible(stL):
+                    continue
+                items = []
+                for f in fields[lov:L]:
+                    stL, v = self.read_field(stL, base, f)
+                    items.append(v)
+                yield stL, SV(None, Ty('pytuple'), tuple(items))
+            if alen is not None:
+                stX = st.assume(alen > len(fields))
+                if self.feasible(stX):
+                    raise OutOfReach('%s record longer than the modelled %d fields' % (base.ty.args[0], len(fields)))
             return
         raise OutOfReach('slice of %r' % (base,))
 
